@@ -741,6 +741,10 @@ def run_prop(prop, qs, tier, seed, build, nrand_quick=40, nrand_thorough=600, wh
                           dict(pd=pd, req=r, bad=str(v[1])))
     rep.cov["traces_validated_against_impl"] = len(groups)
     rep.cov["evaluations"] = len(groups)
+    if prop in ("C02", "C07", "C19"):
+        # the symmetrisation / null-column / scatter helpers these properties rest on (compmech/sparse.py)
+        import sparseops
+        sparseops.phase(rep, tier, seed)
     rep.sample(dict(pd=pairs[0][0], req=jreq(pairs[0][1])))
     if rnd:
         rep.sample(dict(pd=rnd[0][0], req=rnd[0][1]))
